@@ -189,7 +189,9 @@ func (sr *scenRun) evaluate(eps []*endpoint, reliable bool) {
 	}
 	// what the server itself could not decode (receiver reports of readers, publisher traffic)
 	run.Count("server-decode-errors:"+tag, sr.srvDec.Load())
-	if n := sr.srvDec.Load(); n > 0 && !sc.Tamper && !sc.Plain && sc.Kind == "play" {
+	// (multicast is excluded: reader and server share one IP address here, so the server's multicast
+	// RTCP socket also receives its own looped-back reports and attributes them to the reader)
+	if n := sr.srvDec.Load(); n > 0 && !sc.Tamper && !sc.Plain && sc.Kind == "play" && sc.Transport != "mcast" {
 		d1, _ := sr.srvDec1.Load().(string)
 		sr.fail("interop/"+sc.Transport+"/play/server-decode-error-without-tampering",
 			fmt.Sprintf("the server signalled %d decode errors for packets sent by its readers on an untampered secure session (first: %s)", n, d1), map[string]any{"kinds": sr.srvEP.decodeErrorKinds()})
